@@ -42,7 +42,51 @@ def transform_ops(P):
     return out
 
 
+def narrowing_rule(ck, P):
+    """R-FILTER|narrowed: a filter's advertised coverage (and the guard of its lookups, which reads the same field) is the source's
+    coverage NARROWED by the argument: filter_bbox intersects parameters.bbox_pyramid with the bbox argument exactly once on every
+    successful build path; filter_zoom applies set_zoom_min(min) / set_zoom_max(max) exactly when the option is given, with the
+    option's own value; the narrowed parameters are the ones stored in the stage."""
+    from . import mvt
+    for suffix, calls in (("transform::filter_bbox::Operation::build", (("intersect_geo_bbox", None),)),
+                          ("transform::filter_zoom::Operation::build", (("set_zoom_min", "min"), ("set_zoom_max", "max")))):
+        bs = [b for b in P.bodies if b["q"].endswith(suffix)]
+        if not ck.anchor("R-FILTER", suffix, bs, 1):
+            continue
+        b = bs[0]
+        pl = [y for y in ir.walk_nodes(b["body"]) if y.get("k") == "let" and y["pat"].get("k") == "bind" and "TilesReaderParameters" in (y["pat"].get("t") or "")]
+        ph = pl[0]["pat"]["hid"] if pl else None
+        stored = [y for y in ir.walk_nodes(b["body"]) if y.get("k") == "struct" and (y.get("q") or "").endswith("::Operation") and
+                  any(f["name"] == "parameters" and ir.local_hid(f["e"]) == ph for f in y.get("fields", ()))]
+        okc, why = ph is not None and bool(stored), []
+        for nm, opt in calls:
+            cs = [(y, ps) for y, ps, _ in ir.walk(b["body"]) if y.get("k") == "mcall" and (y.get("q") or "").endswith("TileBBoxPyramid::" + nm)]
+            on_params = [c for c in cs if ir.place_str(c[0]["recv"]).endswith(".bbox_pyramid") and
+                         any(z.get("k") == "path" and z.get("r") == "local" and z.get("hid") == ph for z in ir.walk_nodes(c[0]["recv"]))]
+            if len(on_params) != 1:
+                okc = False
+                why.append("%s is applied %d time(s) to the stage's parameters" % (nm, len(on_params)))
+                continue
+            y, ps = on_params[0]
+            guards = [p_ for p_ in ps if p_.get("k") in ("if", "match", "for", "while", "loop", "closure") and "async" not in (p_.get("t") or "") and "Coroutine" not in (p_.get("ck") or "")]
+            if opt is None:
+                if guards:
+                    okc = False
+                    why.append("%s is conditional" % nm)
+            else:
+                g = guards[-1] if guards else None
+                lx = ir.unparen(g["c"]) if g is not None and g.get("k") == "if" else None
+                wired = lx is not None and lx.get("k") == "letx" and (lx["pat"].get("q") or "").endswith("Option::Some::{Ctor#0}") and ir.place_str(lx["init"]).endswith("." + opt) and \
+                    ir.local_hid(y["a"][0]) in {x["hid"] for x in ir.pat_binds(lx["pat"])} and len(guards) == 1
+                if not wired:
+                    okc = False
+                    why.append("%s is not applied exactly under `if let Some(v) = args.%s` with v" % (nm, opt))
+        ck.check(okc, "R-FILTER", b["q"] + "|narrowed", "the stage's parameters are the source's, narrowed by the argument (%s), and stored in the stage" % ", ".join(c[0] for c in calls),
+                 "the filter does not narrow the coverage it advertises and guards with: %s" % (why or "parameters not stored"), ir.loc(b))
+
+
 def rules(ck, P):
+    narrowing_rule(ck, P)
     from . import boxalg as _boxalg
     _boxalg.box_core_rules(ck, P)
     ops = transform_ops(P)
